@@ -15,7 +15,7 @@ from __future__ import annotations
 import ast
 
 from ..astutil import dotted, src, walk_local, local_assignments, calls, terminal, if_chain
-from ..report import AnalysisError
+from ..report import AnalysisError, Frag
 
 ARITH = {"add": "+", "sub": "-", "mul": "*", "truediv": "/", "pow": "**"}
 COMMUTATIVE = {"+", "*"}
@@ -99,7 +99,7 @@ def _operators(prog, rep):
     VV = prog.cls("VectorVariable")
     rm = VV.methods.get("__rmatmul__")
     s = src(rm.node)
-    ok = "LinearCombination(arr, self)" in s and "MatrixVectorProduct(arr, self)" in s and "arr.ndim == 1" in s and "arr.ndim == 2" in s
+    ok = Frag(s, "LinearCombination(arr, self)", "MatrixVectorProduct(arr, self)", "arr.ndim == 1", "arr.ndim == 2")
     rep.ob("R11.1", "VectorVariable.__rmatmul__", ok, "1-D array @ x -> LinearCombination(arr, x); 2-D array @ x -> MatrixVectorProduct(arr, x)" if ok else "array @ vector is not dispatched on ndim to LinearCombination / MatrixVectorProduct with the array as coefficient", loc=rm.loc, detail="matmul")
 
 
@@ -208,26 +208,47 @@ def _index_maps(prog, rep):
     rep.pin('index maps of views', "R11.3", "MatrixExpression.T", ok, "T[i][j] = self[j][i]" if ok else "MatrixExpression.T does not build [[self[j][i] for j in rows] for i in cols]", loc=ME.loc, detail="index-map")
     init = MV.methods["__init__"]
     s = src(init.node)
-    ok = "if symmetric and j < i:" in s and "row.append(self._variables[j][i])" in s and "for i in range(rows):" in s and "for j in range(cols):" in s
-    rep.pin('index maps of views', "R11.3", "MatrixVariable.__init__", ok, "symmetric: A[i][j] for j < i reuses the Variable object A[j][i]" if ok else "the symmetric construction does not reuse the variable at [j][i] for j < i", loc=init.loc, detail="symmetric-sharing")
+    # structural: under the `symmetric` guard the element is taken from the already built grid with swapped indices
+    sym_ifs = [n for n in walk_local(init.node) if isinstance(n, ast.If) and "symmetric" in src(n.test) and any(isinstance(x, ast.Compare) for x in ast.walk(n.test)) and "rows != cols" not in src(n.test)]
+    if not sym_ifs:
+        rep.undecided("R11.3 MatrixVariable.__init__: symmetric construction not in the recognised form")
+    for n in sym_ifs:
+        loops = {}
+        p_ = getattr(n, "_parent", None)
+        while p_ is not None and p_ is not init.node:
+            if isinstance(p_, ast.For):
+                loops[src(p_.target)] = src(p_.iter)
+            p_ = getattr(p_, "_parent", None)
+        apps = [c for st in n.body for c in ast.walk(st) if isinstance(c, ast.Call) and isinstance(c.func, ast.Attribute) and c.func.attr == "append"]
+        lt = [x for x in ast.walk(n.test) if isinstance(x, ast.Compare) and isinstance(x.ops[0], (ast.Lt, ast.Gt))]
+        okk = False
+        why = "no element is appended under the symmetric guard"
+        if apps and lt:
+            a_, b_ = src(lt[0].left), src(lt[0].comparators[0])
+            if isinstance(lt[0].ops[0], ast.Gt):
+                a_, b_ = b_, a_
+            v = apps[0].args[0]
+            okk = src(v) == f"self._variables[{a_}][{b_}]"
+            why = f"under `{src(n.test)}` the element appended is `{src(v)[:60]}`; the mirror element self._variables[{a_}][{b_}] must be reused so that A[i][j] and A[j][i] are ONE variable"
+        rep.ob("R11.3", "MatrixVariable.__init__", okk, f"symmetric: for {src(lt[0]) if lt else '?'} the Variable object at the mirrored position is reused" if okk else why, loc=f"{init.module.rel}:{n.lineno}", detail="symmetric-sharing")
     named = "Variable(f'{name}[{i},{j}]'" in s
     rep.pin('index maps of views', "R11.3", "MatrixVariable.__init__", named, "element [i][j] is named name[i,j]" if named else "matrix elements are not named name[i,j] at position [i][j]", loc=init.loc, detail="element-names")
     for mname in ("diagonal", "trace"):
         m = MV.methods[mname]
         t = src(m.node)
-        ok = "self._variables[i][i]" in t and "self.rows != self.cols" in t
+        ok = Frag(t, "self._variables[i][i]", "self.rows != self.cols")
         rep.pin('index maps of views', "R11.3", f"MatrixVariable.{mname}", ok, "uses [i][i] of a square matrix" if ok else f"{mname} does not use the [i][i] entries of a square matrix", loc=m.loc, detail="diagonal")
     gi = MV.methods["__getitem__"]
     t = src(gi.node)
-    ok = "row_vars = self._variables[row_key][col_key]" in t and "col_vars = [row[col_key] for row in self._variables[row_key]]" in t and "return self._variables[row_key][col_key]" in t and "sliced_vars = [row[col_key] for row in sliced_rows]" in t
+    ok = Frag(t, "row_vars = self._variables[row_key][col_key]", "col_vars = [row[col_key] for row in self._variables[row_key]]", "return self._variables[row_key][col_key]", "sliced_vars = [row[col_key] for row in sliced_rows]")
     rep.pin('index maps of views', "R11.3", "MatrixVariable.__getitem__", ok, "A[i, j] / A[i, :] / A[:, j] / A[a:b, c:d] index rows first, then columns" if ok else "matrix indexing does not index rows first and columns second for all four cases", loc=gi.loc, detail="row/column")
     mvp = prog.cls("MatrixVectorProduct").methods["__init__"]
     t = src(mvp.node)
-    ok = "LinearCombination(matrix[i, :], vector) for i in range(self.size)" in t and "self.size = matrix.shape[0]" in t
+    ok = Frag(t, "LinearCombination(matrix[i, :], vector) for i in range(self.size)", "self.size = matrix.shape[0]")
     rep.pin('index maps of views', "R11.3", "MatrixVectorProduct.__init__", ok, "element i is row i of the matrix dotted with the vector" if ok else "element i of A @ x is not LinearCombination(A[i, :], x)", loc=mvp.loc, detail="row-i")
     mm = MV.methods["_matmul_vector"]
     t = src(mm.node)
-    ok = "BinaryOp(self._variables[i][j], vec_elem, '*')" in t and "for i in range(self.rows):" in t and "for j in range(self.cols):" in t and "vector[j]" in t and "BinaryOp(row_expr, term, '+')" in t
+    ok = Frag(t, "BinaryOp(self._variables[i][j], vec_elem, '*')", "for i in range(self.rows):", "for j in range(self.cols):", "vector[j]", "BinaryOp(row_expr, term, '+')")
     rep.pin('index maps of views', "R11.3", "MatrixVariable._matmul_vector", ok, "row i = sum_j A[i][j] * v[j]" if ok else "(A @ v)[i] is not sum_j A[i][j] * v[j]", loc=mm.loc, detail="row-i")
     vv = prog.cls("VectorVariable")
     t = src(vv.methods["__init__"].node)
@@ -235,12 +256,12 @@ def _index_maps(prog, rep):
     rep.pin('index maps of views', "R11.3", "VectorVariable.__init__", ok, "element i is named name[i]" if ok else "vector elements are not created as name[i] for i in range(size)", loc=vv.loc, detail="element-names")
     gi = vv.methods["__getitem__"]
     t = src(gi.node)
-    ok = "return self._variables[key]" in t and "sliced_vars = self._variables[key]" in t and "key = self.size + key" in t
+    ok = Frag(t, "return self._variables[key]", "sliced_vars = self._variables[key]", "key = self.size + key")
     rep.pin('index maps of views', "R11.3", "VectorVariable.__getitem__", ok, "x[i] / x[a:b:c] are Python list indexing of the element list (negative indices wrapped)" if ok else "vector indexing is not plain list indexing of the element list", loc=gi.loc, detail="slice")
     for cname in ("MatrixSum", "FrobeniusNorm"):
         ev = prog.cls(cname).methods["evaluate"]
         t = src(ev.node)
-        ok = "range(self.matrix.rows)" in t and "range(self.matrix.cols)" in t
+        ok = Frag(t, "range(self.matrix.rows)", "range(self.matrix.cols)")
         rep.pin('index maps of views', "R11.3", f"{cname}.evaluate", ok, "ranges over all rows x cols" if ok else f"{cname}.evaluate does not range over the full rows x cols grid", loc=ev.loc, detail="full-grid")
 
 
